@@ -1,6 +1,7 @@
 package dom
 
 import (
+	"net/url"
 	"encoding/json"
 	"os"
 	"sort"
@@ -21,7 +22,15 @@ import (
 // legacy: the deprecated BadgerDB middleware (packages middleware and
 // middleware/resbadger) serving one resource "svc.r" (C20).
 
+// legacyT is the Go type of the typed resbadger model
+type legacyT struct {
+	A json.RawMessage `json:"a,omitempty"`
+	B json.RawMessage `json:"b,omitempty"`
+	C json.RawMessage `json:"c,omitempty"`
+}
+
 type legacyDom struct {
+	idxs *resbadger.IndexSet
 	dir     string
 	db      *badger.DB
 	run     *svc.Runner
@@ -84,8 +93,12 @@ func (d *legacyDom) Gen(r *gen.R, tier string, emit func(string)) {
 			}
 			return out
 		}
-		cfg := []string{"cfg", r.Pick([]string{"mw", "rb"}), typ}
-		if r.Chance(1, 3) {
+		pkg := r.Pick([]string{"mw", "rb"})
+		if model && r.Chance(1, 3) {
+			pkg = "rbi" // resbadger, typed model with an index set and a query collection
+		}
+		cfg := []string{"cfg", pkg, typ}
+		if pkg != "rbi" && r.Chance(1, 3) {
 			cfg = append(append(cfg, "D"), genVal()...)
 		} else {
 			cfg = append(cfg, "N")
@@ -119,9 +132,16 @@ func (d *legacyDom) Gen(r *gen.R, tier string, emit func(string)) {
 				emit(wire.Line("reopen"))
 			}
 			emit(wire.Line("get"))
+			if pkg == "rbi" {
+				emit(wire.Line("iq", r.Pick([]string{"ia", "ib"}), r.Pick([]string{"", "", "1", "\"", "\"a", "t", "n"})))
+			}
 		}
 		emit(wire.Line("reopen"))
 		emit(wire.Line("get"))
+		if pkg == "rbi" {
+			emit(wire.Line("iq", "ia", ""))
+			emit(wire.Line("iq", "ib", ""))
+		}
 	}
 	emit(wire.Line("reset"))
 }
@@ -180,6 +200,13 @@ func renderAny(v interface{}) string {
 			el[i] = wire.Enc(string(b))
 		}
 		return "coll:" + strings.Join(el, ",")
+	case legacyT:
+		// the typed value: rendered through its JSON form
+		b, err := json.Marshal(x)
+		if err != nil {
+			return "garbage"
+		}
+		return renderAny(json.RawMessage(b))
 	}
 	return "other"
 }
@@ -208,6 +235,28 @@ func (d *legacyDom) start() error {
 			o = o.WithDefault(def)
 		}
 		opt = o
+	} else if a[1] == "rbi" {
+		keyOf := func(field string) func(interface{}) []byte {
+			return func(v interface{}) []byte {
+				switch x := v.(type) {
+				case legacyT:
+					switch field {
+					case "a":
+						return x.A
+					default:
+						return x.B
+					}
+				case map[string]interface{}:
+					if e, ok := x[field]; ok {
+						b, _ := json.Marshal(e)
+						return b
+					}
+				}
+				return nil
+			}
+		}
+		d.idxs = &resbadger.IndexSet{Indexes: []resbadger.Index{{Name: "ia", Key: keyOf("a")}, {Name: "ib", Key: keyOf("b")}}}
+		opt = resbadger.BadgerDB{DB: db}.Model().WithType(legacyT{}).WithIndexSet(d.idxs)
 	} else if d.model {
 		o := resbadger.BadgerDB{DB: db}.Model()
 		if def != nil {
@@ -228,6 +277,16 @@ func (d *legacyDom) start() error {
 		s.Handle("r", typ, opt)
 	} else {
 		s.Handle("r", opt)
+	}
+	if a[1] == "rbi" {
+		s.Handle("qc", resbadger.BadgerDB{DB: db}.QueryCollection().WithIndexSet(d.idxs).WithQueryCallback(
+			func(idxs *resbadger.IndexSet, rname string, params map[string]string, q url.Values) (*resbadger.IndexQuery, string, error) {
+				ix, err := idxs.GetIndex(q.Get("idx"))
+				if err != nil {
+					return nil, "", err
+				}
+				return &resbadger.IndexQuery{Index: ix, KeyPrefix: []byte(q.Get("p")), Limit: -1}, "idx=" + q.Get("idx") + "&p=" + url.QueryEscape(q.Get("p")), nil
+			}))
 	}
 	s.AddListener("r", func(ev *res.Event) {
 		d.mu.Lock()
@@ -341,6 +400,36 @@ func (d *legacyDom) Exec(a []string) string {
 			return d.event(func(r res.Resource) { r.CreateEvent(v) })
 		case "delete":
 			return d.event(func(r res.Resource) { r.DeleteEvent() })
+		case "iq":
+			payload, _ := json.Marshal(map[string]string{"query": "idx=" + a[1] + "&p=" + url.QueryEscape(a[2])})
+			resp, ok := d.run.Request("get.svc.qc", payload, 5000)
+			if !ok {
+				return "noreply"
+			}
+			var qr struct {
+				Result *struct {
+					Collection []struct {
+						RID string `json:"rid"`
+					} `json:"collection"`
+				} `json:"result"`
+				Error *struct {
+					Code string `json:"code"`
+				} `json:"error"`
+			}
+			if json.Unmarshal(resp, &qr) != nil {
+				return "badjson"
+			}
+			if qr.Error != nil {
+				return "err:" + qr.Error.Code
+			}
+			if qr.Result == nil {
+				return "noresult"
+			}
+			out := make([]string, len(qr.Result.Collection))
+			for i, e := range qr.Result.Collection {
+				out[i] = wire.Enc(e.RID)
+			}
+			return "[" + strings.Join(out, ",") + "]"
 		case "get":
 			resp, ok := d.run.Request("get.svc.r", nil, 5000)
 			if !ok {
